@@ -5,15 +5,17 @@ import random
 from common import *
 import runner
 from props.parts import _tracksv2_gen as G
+from props.parts import _convertv2 as CV
 
-LEAN_MODULES = ["Properties.C06V2"]
+LEAN_MODULES = ["Properties.C06V2", CV.LEAN_MODULE]
 THEOREMS = ["EngineModel.Properties.C06V2." + t for t in [
     "v2_C06_setter_spec", "v2_C06_written_rows", "v2_C06_getter_snapshot", "v2_C06_slot_getters_safe",
     "v2_C06_get_set", "v2_C06_frame", "v2_C06_other_track", "v2_C06_step", "v2_C06_history",
     "v2_C06_obs_is_snapshot", "v2_C06_dbok_empty", "v2_C06_dbok_create",
     "v2_C06_model_get_set_frame", "v2_C06_model_slot_frame", "v2_C06_model_derived", "v2_C06_eight_slots",
     "v2_C06_history_getters", "v2_C06_value_last_set", "v2_C06_statement_level", "v2_C06_dbok_update",
-    "v2_C06_removed_track", "v2_C06_norm_is_C01_norm"]]
+    "v2_C06_removed_track", "v2_C06_norm_is_C01_norm"]] + CV.THEOREMS_C06
+TRANSLATORS = CV.TRANSLATORS
 ASSUMPTIONS = [
     "2.x: the lens theorems are stated on Db.set (whole effect or nothing); v2_C06_statement_level proves that the "
     "statement sequences of track_impl.cpp (EngineModel/TracksV2/Table.lean: SELECT / UPDATE in the C++ order, transaction "
@@ -21,6 +23,7 @@ ASSUMPTIONS = [
     "2.x: rows the setters start from are rows the library stored (cue/loop labels fit the one-byte prefix, length "
     "column readable) - theorem hypothesis DbOk, proved for every table built by create_track; foreign rows are "
     "covered by v2_C06_setter_spec's explicit hypotheses only",
+    CV.ASSUMPTION,
 ]
 MANIFEST_TEXT = ("Schema 2.x: every setter of track_impl is proved to be the lens the Spec describes (named field = "
                  "normalised value, the other 24 snapshot fields and all other tracks unchanged, throws exactly where "
@@ -31,7 +34,8 @@ MANIFEST_TEXT = ("Schema 2.x: every setter of track_impl is proved to be the len
                  "stay removed and refuse every call; tied by generated histories over 3 tracks (every setter, slot "
                  "setters at -1..9) with all getters, snapshot() of all tracks and the raw row after each step, and "
                  "the lens Spec evaluated on the real library's previous answers.")
-TRUSTED_EXTRA = []
+MANIFEST_TEXT = MANIFEST_TEXT + " " + CV.MANIFEST_SENTENCE
+TRUSTED_EXTRA = [CV.TRUSTED]
 
 GETTERS = ["album", "artist", "average_loudness", "beatgrid", "bitrate", "bpm", "comment", "composer", "duration",
            "genre", "hot_cues", "key", "last_played_at", "loops", "main_cue", "publisher", "rating", "relative_path",
